@@ -15,7 +15,7 @@ from props.c02 import gen_build
 import util
 from util import TTNS, TensorProduct
 
-IMPORTS = ("From Coq Require Import List Arith ZArith. From PTN Require Import TTN.Store TEBD.Trotter. "
+IMPORTS = ("From Coq Require Import List Arith ZArith. From PTN Require Import TTN.Store TTN.InvSem TEBD.Trotter. "
            "Import ListNotations.")
 KNOWN_CONTR = "C08-reserved-contr-id"
 CONTR = "contr"          # the temporary identifier hard-coded in tebd.py
@@ -346,14 +346,37 @@ class C08(Prop):
               "under their identifiers with their parent and children (as sets), root unchanged; one step = ordered composition of its gates "
               "(C08_lbc_names, C08_contract_specs_partition, C08_absorb_open_spec, C08_split_nodes_structure, C08_split_nodes_neighbours, C08_two_site_gate_restores, C08_tebd_step_*)"),
         ("F", "truncation: with max_bond_dim = m the new bond has between 1 and m values (C08_bond_bounded, from the C10 model of truncate_singular_values)"),
+        ("F", "value level (TEBD/GateValue.v, any commutative semiring, any atom table, every store satisfying the extended invariant wfsb of C02): "
+              "absorb_into_open_legs keeps wfsb and CHANGES the value of the network in the stated way — net_value after = SUM over the indices j of the "
+              "node's old open wires of tbl ga (indices of the new open wires ++ j) * net_value before at rho[old wires := j], ga the fresh operator atom "
+              "(outputs first, then inputs); hence the single-site gate law; wire bookkeeping of every gate without any contract: the gate's output wires are "
+              "the next fresh wires and become the open wires of its node(s), node1's first, every other node keeps its open wires, and the action list of "
+              "a step (atom, output wires, input wires per gate, list order) equals track_acts computed from the initial wire state and the identifier "
+              "lists alone (C08_absorb_value, C08_absorb_preserves_wfsb, C08_single_site_gate_value, C08_single_site_gate_value_one_leg, "
+              "first conjuncts of C08_two_site_gate_value / C08_tebd_step_value)"),
+        ("O", "under the kernel contract def_holds of every split_node_svd call (the two recorded factors contracted over the new bond give back the tensor "
+              "the kernel received; truncation disabled; a premise, never an axiom): contract_nodes / absorb / split on two neighbouring nodes, either "
+              "orientation, any number of open legs, acts on the value of the network as the gate atom through the open wires of node1 ++ node2 "
+              "(new state[x, y] = SUM_{ja, jb} G[x, y, ja, jb] * old state[ja, jb]); a gate whose table is the swap tensor exchanges the two site indices; "
+              "the value after a whole step (several steps = the list repeated) is the fold_left of the gate actions in list order applied to the value "
+              "before (C08_two_site_gate_value, C08_two_site_gate_value_one_leg, C08_swap_gate_value, C08_tebd_step_value; example over Z with a proved "
+              "contract: C08_example_value_*). The contract is validated numerically on every untruncated two-site gate of every explored instance "
+              "(captured SVD factors contracted over the bond against the model diagram of the temporary node, tolerance 1e-9) and again through the dense oracle"),
         ("I", "per explored instance (vm_compute on the model state, model tied exactly to the code after every sub-operation): pair_okb — the hypotheses of "
-              "C08_two_site_gate_restores, proved sound — before every two-site gate, and structure_kept (every node keeps parent and child set, root kept) after the step"),
-        ("O", "expm and the SVD kernel are opaque atoms of the diagram; gate values are validated against an independent exponential, SVD factors through the dense oracle"),
-        ("V", "new state vector = ordered product of dense unitaries applied to the old one (run_one_time_step on its own instance); bond dimensions within "
-              "[1, max_bond_dim] under truncation; caller's state untouched: dense numpy oracle"),
+              "C08_two_site_gate_restores, proved sound — before every two-site gate, structure_kept (every node keeps parent and child set, root kept) after "
+              "the step, and wfsb (the hypothesis of the value theorems) on the initial model store"),
+        ("O", "expm and the SVD kernel are opaque atoms of the diagram; gate values are validated against an independent exponential, SVD factors by the "
+              "direct contract check above and through the dense oracle"),
+        ("V", "new state vector = ordered product of dense unitaries applied to the old one (run_one_time_step on its own instance) — the end-to-end numerical "
+              "counterpart of C08_tebd_step_value, which is a theorem about the model's diagrams with opaque atom tables, not about floating-point arrays; "
+              "bond dimensions within [1, max_bond_dim] under truncation; caller's state untouched: dense numpy oracle"),
     ]
     trusted_base = ["scipy.linalg.expm (validated against an independent series / eigendecomposition exponential, tolerance 1e-9 relative)",
-                    "LAPACK SVD: U S Vh contracts back to the input when nothing is truncated (validated through the dense oracle)",
+                    "LAPACK SVD: U . (S Vh) contracts back to the input when nothing is truncated = the premise def_holds / tebd_contracts of "
+                    "C08_two_site_gate_value, C08_swap_gate_value, C08_tebd_step_value (validated on every untruncated two-site gate by contracting the captured "
+                    "factors over the new bond against the model diagram, tolerance 1e-9, and through the dense oracle); with truncation enabled the value theorems do not apply",
+                    "atom tables: the value theorems hold for every table tbl; that the table of a gate atom is exp(-i f dt A) / the swap tensor and that of a node atom "
+                    "the initial tensor is the tie (every stored tensor is compared with the einsum of its model diagram over the captured atom values)",
                     "int(i / d) in swap_gate is a float division; equal to floor division for i < 2^53 (the model uses floor division)",
                     "NumPy kron/reshape/tensordot/transpose implement the diagram operations (exercised by comparing every stored tensor with the model diagram)"]
     assumptions = ["every operator of a tensor product has the physical dimension of its site (a 2-site product with the two dimensions exchanged is silently reshaped by the code and by the model alike)",
@@ -775,7 +798,8 @@ class C08(Prop):
                              f"match {coq_steps_expr(spec, idm)} with "
                              f"| Some steps => match @exponentiate_splitting nat nat mdim ds steps with "
                              f"  | Some gs => let tg := mk_tgates (repeat_list {coq_nat(ob['nsteps'])} gs) {kb} in "
-                             f"     Some (map gate_obs gs, build_and_step {coq_nat(contr)} {opl} tg, build_and_hyps {coq_nat(contr)} {opl} tg) "
+                             f"     Some (map gate_obs gs, build_and_step {coq_nat(contr)} {opl} tg, "
+                             f"           (build_and_hyps {coq_nat(contr)} {opl} tg, wfsb (fst (run empty_store {opl})))) "   # [GateValue] wfsb: hypothesis of the value theorems
                              f"  | None => None end "
                              f"| None => None end)")
             idx.append(i)
@@ -873,6 +897,7 @@ class C08(Prop):
         if mo is None:
             return "model rejects the splitting, implementation constructs the TEBD object"
         mgates, mrest, mhyps = mo[1]
+        mhyps, mwfsb = mhyps          # [GateValue] (pair_okb before every two-site gate, wfsb of the initial store)
         mobs0, mtrace, mkept = mrest[:5], mrest[5], mrest[6]      # left-nested pairs print flat
         d = self._compare_gates(ob["spec"], ob["exponents"], gates_from_model(mgates, idm), None)
         if d:
@@ -912,11 +937,22 @@ class C08(Prop):
                         return f"gate {j} after {stg['op']}: cannot evaluate the model diagram of {kk}: {e}"
                     if val.shape != raw.shape or not np.allclose(val, raw, rtol=1e-9, atol=1e-9 * max(1.0, float(np.max(np.abs(raw))) if raw.size else 1.0)):
                         return f"gate {j} after {stg['op']}: tensor {kk} differs from the model diagram"
+            # [GateValue] the kernel contract of C08_two_site_gate_value / C08_tebd_step_value (def_holds on the record of
+            # this split), numerically: the two SVD factors contracted over the new bond = the diagram the kernel
+            # received (contracted pair with the gate attached); only when truncation is disabled
+            if len(mst) == 3 and len(gi) == 2 and ob["svd"] is None:
+                d = self._kernel_contract(wmodel.model_obs_to_py(mst[1], idm), wmodel.model_obs_to_py(mst[2], idm), gi, ob["atoms"])
+                if d:
+                    return f"gate {j} {gi}: {d}"
         n_ok = sum(1 for g in gates if g["ok"])
         if len(mtrace) != len(gates):
             return f"{len(gates)} gates processed by the implementation, {len(mtrace)} by the model"
         if "step_error" not in ob:
-            self._inst[0] += 2
+            self._inst[0] += 3
+            if mwfsb is True:           # [GateValue] hypothesis of C08_*_value on the initial store (kept by every gate: theorem)
+                self._inst[1] += 1
+            else:
+                self._inst[2].append(f"wfsb (hypothesis of C08_tebd_step_value) false on the initial model store (seed {case['seed']})")
             if mkept is not None and mkept[1] is True:
                 self._inst[1] += 1
             else:
@@ -929,6 +965,29 @@ class C08(Prop):
                 return f"run_one_time_step on a second instance does not reproduce the gate-by-gate run: {ob.get('loop_identical')}"
         elif mkept is not None:
             return "model completes the step, implementation raised"
+        return None
+
+    def _kernel_contract(self, m2, m3, gi, atoms):
+        """[GateValue] U . (S.Vh) over the new bond == value of the diagram of the temporary node before the split"""
+        tmpk = [k for k in m2["tkeys"] if k not in m3["tkeys"]]
+        if len(tmpk) != 1 or any(k not in m3["tensors"] for k in gi):
+            return None
+        try:
+            D = m2["tensors"][tmpk[0]]
+            lhs = wmodel.eval_diagram(D, m2["atab"], atoms)
+            fa, fb = m3["tensors"][gi[0]], m3["tensors"][gi[1]]
+            va = wmodel.eval_diagram(fa, m3["atab"], atoms)
+            vb = wmodel.eval_diagram(fb, m3["atab"], atoms)
+            wires = {}
+            lab = lambda w: wires.setdefault(w, len(wires))
+            rhs = np.einsum(va, [lab(w) for w in fa["axes"]], vb, [lab(w) for w in fb["axes"]], [lab(w) for w in D["axes"]])
+        except Exception as e:  # noqa
+            return f"cannot evaluate the kernel contract: {e}"
+        scale = max(1.0, float(np.max(np.abs(lhs))) if lhs.size else 1.0)
+        if lhs.shape != rhs.shape or not np.allclose(lhs, rhs, rtol=1e-9, atol=1e-9 * scale):
+            return ("kernel contract violated: the two factors of split_node_svd contracted over the new bond differ from the "
+                    f"gate-applied pair by {float(np.max(np.abs(lhs - rhs))) if lhs.shape == rhs.shape else 'shape'}")
+        self._stats["contract:svd-validated"] += 1
         return None
 
     def extra_obligations(self, ctx):
